@@ -212,6 +212,34 @@ def check_dict(rep, mod, S):
                      sample='%s: memcpy after length vs %d test' % (fn, codes['HIST']))
 
 
+def check_dict_tail(rep, mod):
+    """only the last window-size bytes of a longer dictionary matter: all three functions that copy a caller dictionary clamp its length to
+    IGZIP_HIST_SIZE; the clamp keeps the LAST bytes only if the source pointer is advanced together with it (siblings must agree)."""
+    R = rep.rule('R-DICT-TAIL', 'isal_deflate_set_dict / isal_inflate_set_dict / isal_deflate_process_dict: the source of the history copy may be the dictionary pointer advanced by a length-dependent amount '
+                 '(its value set contains both the parameter and the parameter plus a variable offset), and every later use of the dictionary data in the same function (hashing) takes the same pointer value; '
+                 'a copy that can only start at the first byte keeps the head, not the tail, of a long dictionary', floor=3, unit='functions')
+    for fn, pidx in (('isal_deflate_set_dict', 1), ('isal_inflate_set_dict', 1), ('isal_deflate_process_dict', 2)):
+        f = mod.funcs.get(fn)
+        if f is None:
+            raise AnalysisBroken(fn + ' not found')
+        R.instance()
+        P = irrules.prov(mod, f)
+        copies = [i for i in f.all_insns() if i.op == 'call' and i.callee.startswith('llvm.memcpy') and any(a[0] == 'param' and a[1] == pidx for a in P.atoms(i.args[1][1]))]
+        if not copies:
+            raise AnalysisBroken('%s: no copy from the dictionary parameter found' % fn)
+        for cp in copies:
+            at = P.atoms(cp.args[1][1])
+            R.check(('param', pidx, None) in at and ('param', pidx, 0) in at, mod.where(f, cp), '%s: the history copy can only read from %s; for a dictionary longer than IGZIP_HIST_SIZE the pointer must be advanced to its last IGZIP_HIST_SIZE bytes '
+                    '(as the sibling functions do)' % (fn, sorted(at, key=str)), key='R-DICT-TAIL|%s|copy' % fn, sample='%s: source is dict or dict + (len - HIST)' % fn)
+        src = irrules._strip(f, copies[0].args[1][1])
+        for i in f.all_insns():
+            if i.op == 'call' and i.callee in mod.funcs and not i.callee.startswith('llvm.'):
+                for _, v in i.args:
+                    at = P.atoms(v)
+                    if any(a[0] == 'param' and a[1] == pidx for a in at):
+                        R.check(irrules._strip(f, v) == src, mod.where(f, i), '%s passes a different dictionary pointer to %s than the one the history was copied from' % (fn, i.callee), key='R-DICT-TAIL|%s|%s' % (fn, i.callee))
+
+
 def check_mask_fresh(rep, mod, S):
     """must-pass-through with one path-sensitive variable (has_hist): the caller may change hist_bits between streams,
     so in every call that starts matching from a 'stream start' state the window masks must be recomputed from the
@@ -323,6 +351,7 @@ def main(tier):
         check_mask_range(rep, c)
     check_dict(rep, mod, S)
     check_mask_fresh(rep, mod, S)
+    check_dict_tail(rep, mod)
     try:
         import c17_asm
         c17_asm.check(rep)
